@@ -502,6 +502,10 @@ def oracle(ctx, case, outcome, res, cnt, type_names):
                 if st.endswith(suf):
                     expected.add(st[:-len(suf)])
                     break
+        if any(st in ('get_type', 'get_gtype') for st in spec_symbol_strips(gt, symp)):
+            # under one of the namespace prefixes nothing but the suffix is left: a type named by a prefix
+            cnt.hit('registered:type-named-by-a-prefix(outside)')
+            continue
         for where, tag, el, parent in els:
             if where == 'top' and el.get(q('glib:get-type')) == gt:
                 cnt.hit('registered:%s:%s' % (tag, 'gtype' if gt.endswith('_get_gtype') else 'type'))
